@@ -4,9 +4,11 @@ package main
 // the known-findings file, and evidence writing.
 
 import (
+	_ "embed"
 	"encoding/json"
 	"fmt"
 	"go/ast"
+	"go/constant"
 	"go/token"
 	"go/types"
 	"os"
@@ -43,6 +45,7 @@ type Ctx struct {
 	allFns  map[*ssa.Function]bool
 	NFuncs  int
 	LoadDur time.Duration
+	Overlay map[string][]byte // non-nil for the normalised view: file -> replaced content
 }
 
 func goEnv(extra ...string) []string {
@@ -63,6 +66,11 @@ func goEnv(extra ...string) []string {
 // Load type-checks every package of the module at repo for the given build
 // configuration and builds SSA for the module's own packages.
 func Load(repo string, bc BuildConfig) (*Ctx, error) {
+	return LoadOverlay(repo, bc, nil)
+}
+
+// LoadOverlay is Load with some files replaced by the given contents.
+func LoadOverlay(repo string, bc BuildConfig, overlay map[string][]byte) (*Ctx, error) {
 	t0 := time.Now()
 	fset := token.NewFileSet()
 	env := goEnv("GOOS="+bc.GOOS, "GOARCH="+bc.GOARCH, "CGO_ENABLED=0")
@@ -72,6 +80,9 @@ func Load(repo string, bc BuildConfig) (*Ctx, error) {
 		Fset:  fset,
 		Env:   env,
 		Tests: false,
+	}
+	if len(overlay) > 0 {
+		cfg.Overlay = overlay
 	}
 	pkgs, err := packages.Load(cfg, "./...")
 	if err != nil {
@@ -92,7 +103,7 @@ func Load(repo string, bc BuildConfig) (*Ctx, error) {
 		}
 		return nil, fmt.Errorf("type-check/load errors (%s): %s", bc, strings.Join(errs, "; "))
 	}
-	c := &Ctx{Repo: repo, Config: bc, Fset: fset, ByPath: map[string]*packages.Package{}, SSAPkg: map[string]*ssa.Package{}}
+	c := &Ctx{Repo: repo, Config: bc, Fset: fset, ByPath: map[string]*packages.Package{}, SSAPkg: map[string]*ssa.Package{}, Overlay: overlay}
 	for _, p := range pkgs {
 		c.Pkgs = append(c.Pkgs, p)
 		c.ByPath[p.PkgPath] = p
@@ -115,6 +126,7 @@ func Load(repo string, bc BuildConfig) (*Ctx, error) {
 			c.NFuncs++
 		}
 	}
+	resolveRenames(c)
 	computeImmutableFields(c)
 	computeFieldLenInvariants(c)
 	curCtx = c
@@ -480,7 +492,90 @@ type FuncInfo struct {
 
 // Func resolves a function by package path and name; name is "F", "T.M" or
 // "(*T).M" (receiver pointer-ness is ignored when matching).
+// anchorsSeen records every anchor looked up in this process (maintenance: -write-anchors).
+var anchorsSeen = map[string]*FuncInfo{}
+
+// frozenAnchors: receiver and signature of every anchor function as confirmed on the pinned tree
+// (anchors.json, regenerated with `rarecheck -write-anchors`). Used only to recognise an anchor that
+// was renamed: same package, same receiver, same signature, and no other function of the package
+// has that signature.
+//
+//go:embed anchors.json
+var frozenAnchorsJSON []byte
+var frozenAnchors map[string]string
+
+func sigKey(p *packages.Package, fd *ast.FuncDecl) string {
+	obj, _ := p.TypesInfo.Defs[fd.Name].(*types.Func)
+	if obj == nil {
+		return ""
+	}
+	r := ""
+	if fd.Recv != nil && len(fd.Recv.List) == 1 {
+		r = recvTypeName(fd.Recv.List[0].Type)
+		if _, ok := fd.Recv.List[0].Type.(*ast.StarExpr); ok {
+			r = "*" + r
+		}
+	}
+	return r + "|" + types.TypeString(obj.Type(), func(pk *types.Package) string { return pk.Path() })
+}
+
 func (c *Ctx) Func(pkgPath, name string) *FuncInfo {
+	fi := c.funcByName(pkgPath, name)
+	if fi != nil {
+		anchorsSeen[pkgPath+"|"+name] = fi
+		return fi
+	}
+	// a helper of the expression language is registered under its user-visible name: resolve it through
+	// the registry when its Go name changed
+	if key, ok := stageRegistryKey[name]; ok && pkgPath == "rare/pkg/expressions/stdlib" {
+		if fi := c.stageFactoryByKey(key); fi != nil {
+			return fi
+		}
+	}
+	// renamed? unique function of the package with the frozen receiver and signature
+	if frozenAnchors == nil {
+		frozenAnchors = map[string]string{}
+		_ = json.Unmarshal(frozenAnchorsJSON, &frozenAnchors)
+	}
+	want, ok := frozenAnchors[pkgPath+"|"+name]
+	p := c.ByPath[pkgPath]
+	if !ok || want == "" || p == nil {
+		return nil
+	}
+	var cands []*ast.FuncDecl
+	for _, f := range p.Syntax {
+		for _, d := range f.Decls {
+			fd, isF := d.(*ast.FuncDecl)
+			if !isF || fd.Body == nil || sigKey(p, fd) != want {
+				continue
+			}
+			// a function that is itself a (present) anchor is not a renamed copy of this one
+			other := fd.Name.Name
+			if fd.Recv != nil && len(fd.Recv.List) == 1 {
+				star := ""
+				if _, isStar := fd.Recv.List[0].Type.(*ast.StarExpr); isStar {
+					star = "*"
+				}
+				other = "(" + star + recvTypeName(fd.Recv.List[0].Type) + ")." + fd.Name.Name
+			}
+			if _, isAnchor := frozenAnchors[pkgPath+"|"+other]; isAnchor {
+				continue
+			}
+			cands = append(cands, fd)
+		}
+	}
+	if len(cands) != 1 {
+		return nil
+	}
+	fd := cands[0]
+	obj, _ := p.TypesInfo.Defs[fd.Name].(*types.Func)
+	if obj == nil {
+		return nil
+	}
+	return &FuncInfo{Pkg: p, Decl: fd, Obj: obj, Name: pkgPath + "." + name}
+}
+
+func (c *Ctx) funcByName(pkgPath, name string) *FuncInfo {
 	p := c.ByPath[pkgPath]
 	if p == nil {
 		return nil
@@ -570,6 +665,9 @@ func (c *Ctx) AllFuncDecls(prefixes ...string) []*FuncInfo {
 }
 
 func funcDisplayName(pkgPath string, fd *ast.FuncDecl) string {
+	if n, ok := renamedDecl[fd]; ok && !resolvingRenames {
+		return n
+	}
 	if fd.Recv != nil && len(fd.Recv.List) == 1 {
 		star := ""
 		if _, ok := fd.Recv.List[0].Type.(*ast.StarExpr); ok {
@@ -578,4 +676,107 @@ func funcDisplayName(pkgPath string, fd *ast.FuncDecl) string {
 		return fmt.Sprintf("%s.(%s%s).%s", pkgPath, star, recvTypeName(fd.Recv.List[0].Type), fd.Name.Name)
 	}
 	return pkgPath + "." + fd.Name.Name
+}
+
+// stageRegistryKey: Go name on the pinned tree -> key in stdlib.StandardFunctions.
+var stageRegistryKey = map[string]string{
+	"kfClamp": "clamp", "kfCsv": "csv", "kfMath": "!", "kfArraySelect": "@select", "kfArraySlice": "@slice",
+}
+
+// stageFactoryByKey resolves the function registered under key in StandardFunctions.
+func (c *Ctx) stageFactoryByKey(key string) *FuncInfo {
+	p := c.ByPath["rare/pkg/expressions/stdlib"]
+	if p == nil {
+		return nil
+	}
+	var out *FuncInfo
+	for _, f := range p.Syntax {
+		ast.Inspect(f, func(n ast.Node) bool {
+			kv, ok := n.(*ast.KeyValueExpr)
+			if !ok {
+				return true
+			}
+			tv, ok := p.TypesInfo.Types[kv.Key]
+			if !ok || tv.Value == nil || tv.Value.Kind() != constant.String || constant.StringVal(tv.Value) != key {
+				return true
+			}
+			v := ast.Unparen(kv.Value)
+			if ce, ok := v.(*ast.CallExpr); ok && len(ce.Args) == 1 { // KeyBuilderFunction(kfX)
+				v = ast.Unparen(ce.Args[0])
+			}
+			if id, ok := v.(*ast.Ident); ok {
+				if fn, ok := p.TypesInfo.Uses[id].(*types.Func); ok {
+					if fi := funcDeclOf(c, fn); fi != nil {
+						out = fi
+					}
+				}
+			}
+			return true
+		})
+	}
+	return out
+}
+
+// Renamed anchors keep their frozen names in everything the checker prints or
+// compares (obligation keys, reviewed entries, callee names), so that a rename
+// changes no verdict and no key.
+var renamedDecl = map[*ast.FuncDecl]string{} // declaration -> frozen display name
+var renamedFunc = map[*types.Func]string{}   // function object -> frozen FullName
+var resolvingRenames bool
+
+// splitDisplayName: "rare/pkg/x.(*T).m" -> ("rare/pkg/x", "(*T).m").
+func splitDisplayName(d string) (string, string) {
+	slash := strings.LastIndex(d, "/")
+	dot := strings.Index(d[slash+1:], ".")
+	if dot < 0 {
+		return d, ""
+	}
+	return d[:slash+1+dot], d[slash+1+dot+1:]
+}
+
+func frozenFullName(pkgPath, name string) string {
+	if strings.HasPrefix(name, "(") {
+		// (*T).m -> (*pkg.T).m
+		i := strings.Index(name, ")")
+		recv := strings.TrimPrefix(name[1:i], "*")
+		star := ""
+		if strings.HasPrefix(name[1:i], "*") {
+			star = "*"
+		}
+		return "(" + star + pkgPath + "." + recv + ")" + name[i+1:]
+	}
+	return pkgPath + "." + name
+}
+
+// resolveRenames fills renamedDecl / renamedFunc for the loaded program.
+func resolveRenames(c *Ctx) {
+	renamedDecl = map[*ast.FuncDecl]string{}
+	renamedFunc = map[*types.Func]string{}
+	if frozenAnchors == nil {
+		frozenAnchors = map[string]string{}
+		_ = json.Unmarshal(frozenAnchorsJSON, &frozenAnchors)
+	}
+	resolvingRenames = true
+	defer func() { resolvingRenames = false }()
+	type hit struct {
+		fi           *FuncInfo
+		pkgPath, nme string
+	}
+	var hits []hit
+	for k := range frozenAnchors {
+		parts := strings.SplitN(k, "|", 2)
+		if len(parts) != 2 {
+			continue
+		}
+		if c.funcByName(parts[0], parts[1]) != nil {
+			continue // present under its own name
+		}
+		if fi := c.Func(parts[0], parts[1]); fi != nil {
+			hits = append(hits, hit{fi, parts[0], parts[1]})
+		}
+	}
+	for _, h := range hits {
+		renamedDecl[h.fi.Decl] = h.pkgPath + "." + h.nme
+		renamedFunc[h.fi.Obj] = frozenFullName(h.pkgPath, h.nme)
+	}
 }
